@@ -425,3 +425,108 @@ Definition c12_spec_read_named (args : list c12_str) (pt : c12_tree) (keywords :
   | (pt', C12Ok, used) => (pt', if existsb negb (firstn required used) then C12ParserError else C12Ok)
   | (pt', st, _) => (pt', st)
   end.
+
+(* what the probe of the code as found (before 3e08a7e) silently dropped after the n-th item:
+   blanks followed by nothing, by a lone sign, or by an integer text whose value is not representable *)
+Definition c12_is_sign (c : ascii) : bool := Ascii.eqb c "-" || Ascii.eqb c "+".
+Definition c12_dropped_tail (lo hi : Z) (r : c12_str) : Prop :=
+  exists b t, r = b ++ t /\ forallb c12_is_space b = true /\
+    (t = [] \/ (exists c, t = [c] /\ c12_is_sign c = true) \/
+     (exists sg ds, t = sg ++ ds /\ (sg = [] \/ exists c, sg = [c] /\ c12_is_sign c = true) /\ ds <> [] /\
+                    forallb (fun c => match c12_digit c with Some _ => true | None => false end) ds = true /\
+                    c12_spec_int_token lo hi t = None)).
+
+(* unsigned types: blank* [+-]? digit+ blank* with magnitude m <= hi; "-m" denotes 2^w - m (the standard
+   library's wrap-around for unsigned extraction: modelled library behaviour, stated, not endorsed) *)
+Definition c12_spec_uint_digits (hi : Z) (neg : bool) (ds : c12_str) : option Z :=
+  match ds with
+  | [] => None
+  | _ => match c12_all_some c12_digit ds with
+         | None => None
+         | Some vals =>
+           let m := fold_left (fun a d => 10 * a + d)%Z vals 0%Z in
+           if (m <=? hi)%Z then Some (if neg then ((hi + 1 - m) mod (hi + 1))%Z else m) else None
+         end
+  end.
+Definition c12_spec_uint_token (hi : Z) (s : c12_str) : option Z :=
+  match s with
+  | "-" :: r => c12_spec_uint_digits hi true r
+  | "+" :: r => c12_spec_uint_digits hi false r
+  | _ => c12_spec_uint_digits hi false s
+  end.
+Definition c12_spec_uint (hi : Z) (s : c12_str) : option Z :=
+  let s1 := c12_dropwhile c12_is_space s in
+  if forallb c12_is_space (c12_dropwhile c12_nonspace s1)
+  then c12_spec_uint_token hi (c12_takewhile c12_nonspace s1)
+  else None.
+
+(* readOptions, every argument vector: scanning left to right, an argument "-k..." (at least one character after
+   the hyphen) takes the NEXT argument -- whatever it looks like -- as its value; all other arguments are
+   ignored; an option at the very end has no value (dangling) *)
+Definition c12_is_option (a : c12_str) : bool :=
+  match a with c :: _ :: _ => Ascii.eqb c "-" | _ => false end.
+Fixpoint c12_options_scan (args : list c12_str) : list (c12_str * c12_str) * bool :=
+  match args with
+  | [] => ([], false)
+  | a :: rest =>
+    if c12_is_option a then
+      match rest with
+      | [] => ([], true)
+      | v :: rest' => let '(l, d) := c12_options_scan rest' in ((tl a, v) :: l, d)
+      end
+    else c12_options_scan rest
+  end.
+Definition c12_spec_read_options (args : list c12_str) (pt : c12_tree) : c12_tree * c12_status :=
+  let '(l, dangling) := c12_options_scan args in
+  let '(t, st) := c12_set_all l pt in
+  (t, match st with C12Ok => if dangling then C12RangeError else C12Ok | _ => st end).
+
+(* ------------------------------------------------------------------ report() read back
+
+   a report line as an item of the INI dialect:  key = "value"  is a quoted single-line assignment,
+   [ name ]  a group header *)
+Definition c12_rline_sline (l : c12_rline) : c12_sline :=
+  match l with
+  | C12RValue k v => C12SQuoted1 [] k [" "] [" "] """" v [] []
+  | C12RHeader n => C12SHeader [] [" "] n [" "] []
+  end.
+(* the printable fragment: the line is inside the dialect of C12_roundtrip (keys non-empty, tight, without = # and
+   not starting with [ ; header names tight without ] ; values without # on their -- only -- line) *)
+Definition c12_rline_ok (l : c12_rline) : bool := c12_sline_ok (c12_rline_sline l).
+(* the (full key, value) list a report denotes when read from prefix [cur] *)
+Definition c12_rl_assigns (rl : list c12_rline) (cur : c12_str) : list (c12_str * c12_str) :=
+  c12_sdoc_assigns (map c12_rline_sline rl) cur.
+Fixpoint c12_dotted (p : list c12_str) : c12_str :=
+  match p with
+  | [] => []
+  | k :: r => match r with [] => k | _ => k ++ "." :: c12_dotted r end
+  end.
+Definition c12_seg_ok (k : c12_str) : bool := negb (c12_is_nil k) && c12_nochar "." k.
+
+(* a floating-point literal and the exact decimal it denotes:
+   sign? I [. F] [e|E sign? X]  with digit strings I, F, X,  I ++ F non-empty, X non-empty when present;
+   value (-1)^neg * digits(I ++ F) * 10^(+-X - |F|) *)
+Definition c12_digits_value (ds : c12_str) : option Z :=
+  match c12_all_some c12_digit ds with
+  | Some vals => Some (fold_left (fun a d => 10 * a + d)%Z vals 0%Z)
+  | None => None
+  end.
+Inductive c12_double_literal : c12_str -> bool * Z * Z -> Prop :=
+| C12DoubleLiteral : forall sg neg I dot F ex m e,
+    (sg = [] /\ neg = false \/ sg = ["+"%char] /\ neg = false \/ sg = ["-"%char] /\ neg = true) ->
+    (dot = [] /\ F = [] \/ dot = ["."%char]) ->
+    I ++ F <> [] ->
+    c12_digits_value (I ++ F) = Some m ->
+    (ex = [] /\ e = (- Z.of_nat (length F))%Z \/
+     exists ec esg eneg X xv, ex = ec :: esg ++ X /\ (ec = "e"%char \/ ec = "E"%char) /\
+        (esg = [] /\ eneg = false \/ esg = ["+"%char] /\ eneg = false \/ esg = ["-"%char] /\ eneg = true) /\
+        X <> [] /\ c12_digits_value X = Some xv /\
+        e = ((if eneg then - xv else xv) - Z.of_nat (length F))%Z) ->
+    c12_double_literal (sg ++ I ++ dot ++ F ++ ex) (neg, m, e).
+
+(* n items of any element type: each an (optionally blank-preceded) text t with Tok t v *)
+Inductive c12_gitems {A : Type} (Tok : c12_str -> A -> Prop) : nat -> c12_str -> list A -> c12_str -> Prop :=
+| C12GItemsDone : forall s, c12_gitems Tok O s [] s
+| C12GItemsMore : forall n b t v r vs rest,
+    forallb c12_is_space b = true -> Tok t v -> c12_gitems Tok n r vs rest ->
+    c12_gitems Tok (S n) (b ++ t ++ r) (v :: vs) rest.
